@@ -88,6 +88,8 @@ hwloc_internal_cpukinds_restrict(hwloc_topology_t topology)
       hwloc_bitmap_free(kind->cpuset);
       hwloc__free_infos(&kind->infos);
       memmove(kind, kind+1, (topology->nr_cpukinds - i - 1)*sizeof(*kind));
+      /* registering expects unused slots to be zeroed, don't leave freed pointers there */
+      memset(&topology->cpukinds[topology->nr_cpukinds - 1], 0, sizeof(*kind));
       i--;
       topology->nr_cpukinds--;
       removed = 1;
